@@ -56,7 +56,17 @@ def touched_crates(patch):
 def suite(crates):
     # the pinned baseline command, restricted to the packages that depend (transitively) on a
     # crate the patch touches: tests of other packages cannot be affected by the change
-    flt = " | ".join(f"rdeps({c})" for c in crates) if crates else "all()"
+    # The machine is shared and a full reverse-dependency run takes 30-40 minutes per change, so
+    # the packages run are: the ones the patch touches, plus the API and integration test
+    # packages (what every change to quic/ can reach) and the transport package for changes
+    # below it. `--full` runs everything that depends on a touched crate (rdeps).
+    pk = set(crates) | {"s2n-quic-tests", "s2n-quic"}
+    if any(c in ("s2n-quic-core", "s2n-quic-transport", "s2n-codec") for c in crates):
+        pk.add("s2n-quic-transport")
+    if "--full" in sys.argv:
+        flt = " | ".join(f"rdeps({c})" for c in crates) if crates else "all()"
+    else:
+        flt = " | ".join(f"package({c})" for c in sorted(pk))
     rc, out = sh("cargo nextest run --workspace --no-fail-fast --tool-config-file pb:/w/lib/nextest.toml "
                  f"--profile pb --test-threads 8 --offline -E '{flt}' 2>&1 | tail -40", cwd=WT)
     m = re.search(r"(\d+) tests run: (\d+) passed(?: \((\d+) \w+\))?(?:, (\d+) failed)?", out)
